@@ -71,7 +71,7 @@ fn part_a(tier: Tier, mine: &mut dyn FnMut() -> bool, out: &mut Partial) {
     };
     for first in 0..c06::N_APIS {
         // every placement of the second call inside the first call's lifetime, and 1 s after it
-        let (_, base) = c06::scenario(Chooser::default_run(), &Script { first, second: None, at_event: None, after: 0, real_peers: false }, false, false);
+        let (_, base) = c06::scenario(Chooser::default_run(), &Script { first, second: None, at_event: None, after: 0, real_peers: false, sync: false }, false, false);
         let mut placements: Vec<(Option<u32>, u64)> = (0..=base.events_first).map(|n| (Some(n), 0u64)).collect();
         placements.push((None, SEC));
         for second in 0..c06::N_APIS {
@@ -79,7 +79,7 @@ fn part_a(tier: Tier, mine: &mut dyn FnMut() -> bool, out: &mut Partial) {
                 if !mine() {
                     continue;
                 }
-                let sc = Script { first, second: Some(second), at_event, after, real_peers: false };
+                let sc = Script { first, second: Some(second), at_event, after, real_peers: false, sync: false };
                 let (_, o) = c06::scenario(Chooser::default_run(), &sc, false, false);
                 rec(&sc, &[], &o, out);
             }
@@ -89,7 +89,7 @@ fn part_a(tier: Tier, mine: &mut dyn FnMut() -> bool, out: &mut Partial) {
         if !mine() {
             continue;
         }
-        let sc = Script { first, second: None, at_event: None, after: 0, real_peers: false };
+        let sc = Script { first, second: None, at_event: None, after: 0, real_peers: false, sync: false };
         let mut ex = Explorer::new(if tier.is_quick() { 1 } else { 2 }, (0, 1));
         if !tier.is_quick() {
             ex.deadline = Some(std::time::Instant::now() + std::time::Duration::from_secs(15 * 60));
@@ -446,7 +446,7 @@ fn replay(v: &Value) -> Result<Option<Violation>, String> {
     match v.get("part").and_then(|p| p.as_str()) {
         Some("a") => {
             let g = |k: &str| v.get(k).and_then(|x| x.as_u64());
-            let sc = Script { first: g("first").ok_or("first")? as usize, second: g("second").map(|x| x as usize), at_event: g("at_event").map(|x| x as u32), after: g("after_ms").unwrap_or(0) * MS, real_peers: false };
+            let sc = Script { first: g("first").ok_or("first")? as usize, second: g("second").map(|x| x as usize), at_event: g("at_event").map(|x| x as u32), after: g("after_ms").unwrap_or(0) * MS, real_peers: false, sync: false };
             let choices: Vec<u32> = v.get("choices").and_then(|c| c.as_array()).map(|a| a.iter().filter_map(|x| x.as_u64().map(|x| x as u32)).collect()).unwrap_or_default();
             let (_, o) = c06::scenario(Chooser::new(choices.clone()), &sc, !choices.is_empty(), false);
             for (k, d) in o.leaks {
